@@ -136,13 +136,22 @@ async def epilogue(run):
     for i in range(n):
         # the first probe goes to the victim's own origin (a dead connection to it must not block it), the others to fresh origins
         host = "a.test" if i == 0 else f"p{i}.test"
-        cm = pool.stream("GET", f"{scheme}://{host}/t/probe{i}", extensions={"timeout": {"pool": 0}})
-        try:
-            resp = await cm.__aenter__()
-            held.append(cm)
-            probe.append(resp.status)
-        except BaseException as exc:
-            probe.append(type(exc).__name__)
+        # a pooled connection whose server went away as part of the injected fault (bytes / end of stream the client has not read yet) looks
+        # idle and healthy to the client: the first request on it fails through no fault of the pool and frees the slot - one more try then
+        dead_idle = any(p.open and (p.eof or p.broken) for p in world.pipes)
+        for attempt in (0, 1):
+            cm = pool.stream("GET", f"{scheme}://{host}/t/probe{i}", extensions={"timeout": {"pool": 0}})
+            try:
+                resp = await cm.__aenter__()
+                held.append(cm)
+                probe.append(resp.status)
+                break
+            except BaseException as exc:
+                if attempt == 0 and dead_idle and type(exc).__name__ in ("RemoteProtocolError", "ReadError", "WriteError", "LocalProtocolError"):
+                    res.setdefault("probe_retried", []).append(type(exc).__name__)
+                    continue
+                probe.append(type(exc).__name__)
+                break
     for cm in held:
         try:
             await cm.__aexit__(None, None, None)
